@@ -324,7 +324,6 @@ func genMerge(r *rand.Rand) dockerIn {
 	return in
 }
 
-func genLifecycle(r *rand.Rand) dockerIn   { return genMerge(r) }
 func genDeterminism(r *rand.Rand) dockerIn { return genMerge(r) }
 
 var selNames = []string{"a", "ab", "b", "web", "db-1", "x.y", ""}
@@ -401,6 +400,57 @@ func genSelect(r *rand.Rand) dockerIn {
 		if in.Shape == "count" {
 			in.Range = 100
 		}
+	}
+	return in
+}
+
+func genLifecycle(r *rand.Rand) dockerIn {
+	in := baseIn()
+	in.Shape = []string{"log", "count", "binop", "sumcount", "log"}[r.Intn(5)]
+	in.Start, in.End, in.Step, in.Range = []int{1700000000, 0}, []int{1700000060, 0}, 20, 600
+	if r.Intn(5) == 0 {
+		// instant
+		in.Start, in.End, in.Step = []int{1700000028, 0}, []int{1700000028, 0}, 0
+	}
+	nc := 1 + r.Intn(5)
+	for c := 1; c <= nc; c++ {
+		nf := r.Intn(6)
+		in.Ctrs = append(in.Ctrs, simpleCtr(fmt.Sprintf("id%d", c), fmt.Sprintf("n%d", c), genFrames(r, c, nf, true, false)))
+	}
+	rounds := 1
+	if in.Shape == "binop" {
+		rounds = 2
+	}
+	switch r.Intn(6) {
+	case 0:
+		in.ListErr = true
+	case 1:
+		in.Faults = append(in.Faults, Fault{Kind: "open", Ctr: 1 + r.Intn(nc), Round: 1 + r.Intn(rounds)})
+	case 2, 3:
+		c := 1 + r.Intn(nc)
+		total := 0
+		for _, f := range in.Ctrs[c-1].Frames {
+			total += len(f.Encode())
+		}
+		kind := []string{"cut", "readerr"}[r.Intn(2)]
+		in.Faults = append(in.Faults, Fault{Kind: kind, Ctr: c, Pos: r.Intn(total + 1), Round: 1 + r.Intn(rounds)})
+	case 4:
+		c := r.Intn(nc)
+		if n := len(in.Ctrs[c].Frames); n > 0 {
+			k := r.Intn(n)
+			if r.Intn(2) == 0 {
+				in.Ctrs[c].Frames[k] = Frame{Typ: 3, TS: []int{0, 0}, Msg: B("daemon error"), Raw: true}
+			} else {
+				in.Ctrs[c].Frames[k] = Frame{Typ: 1, TS: []int{0, 0}, Msg: B("garbage here"), Raw: true}
+			}
+		}
+	}
+	no := 1 + r.Intn(3)
+	for k := 0; k < no; k++ {
+		in.Orders = append(in.Orders, randPerm(r, nc))
+	}
+	if r.Intn(3) == 0 {
+		in.Frag = []int{1 + r.Intn(9)}
 	}
 	return in
 }
